@@ -1446,7 +1446,7 @@ def instantiate_repo_class(ex, cls, args, kwargs, node):
     owner, raw = class_lookup(cls, '__init__')
     mdl = ex.cfg.class_model_for(cls)
     o = ex.alloc(Obj(cls, {}, mdl))
-    if dataclasses.is_dataclass(cls) and getattr(raw, '__qualname__', '').startswith('__create_fn__'):
+    if dataclasses.is_dataclass(cls) and isinstance(raw, types.FunctionType) and raw.__code__.co_filename == '<string>':
         # generated __init__: bind fields in order, defaults from the field objects
         flds = [f for f in dataclasses.fields(cls) if f.init]
         names = [f.name for f in flds]
